@@ -41,7 +41,7 @@ FUNCTIONS = ['polynomial.compare', 'Polynomial.__add__/__radd__/__mul__/__rmul__
 ASSUMPTIONS = ['integer coefficients (CrossHair) / real coefficients (fork mode); operand shapes are enumerated',
                'variable names in compare are represented by symbolic integers: that Python string order is a total order like the integers\' is the one trusted fact',
                'inputs satisfy the class invariant (no stored zero coefficient, monomials sorted)']
-BOUNDS = {'quick': '150 operand-shape pairs harvested from real code generation (fork mode); about 300 harnesses: operands with <=3 monomials over {a,b,c}, degree <=2; per-condition timeout 40 s; chains n<=24 / range n<=12; tosympy on 150 random polynomials; fork mode on 120 shapes; operands accumulated from a zero polynomial; edge operations (zero recognition, number + zero rational, copy constructor, powers 0 / negative, mixed classes); unsnapped integer division',
+BOUNDS = {'quick': '150 operand-shape pairs harvested from real code generation (fork mode); about 300 harnesses: operands with <=3 monomials over {a,b,c}, degree <=2; per-condition timeout 40 s; chains n<=24 / range n<=12; tosympy on 150 random polynomials; fork mode on 120 shapes; operands accumulated from a zero polynomial; edge operations (zero recognition, number + zero rational, copy constructor, powers 0 / negative, mixed classes); unsnapped integer division; every third tosympy case with dyadic float coefficients',
           'thorough': 'about 1000 harnesses, timeout 90 s, chains n<=40 / n<=16'}
 OUTSIDE = ['float coefficients (division by a number produces floats such as 1/3)', 'operand shapes larger than the bound']
 OPTS = {'rlimit': 100_000_000, 'canary_every': 10, 'max_paths': 400, 'max_depth': 200}
